@@ -56,7 +56,10 @@ const maxNodelets = 4 // Number of nodelets for labels (both numeric and non)
 // ComposeDot creates and writes a in the DOT format to the writer, using
 // the configurations given.
 func ComposeDot(w io.Writer, g *Graph, a *DotAttributes, c *DotConfig) {
-	builder := &builder{w, a, c}
+	// Formatted values carry the sample unit of the profile: escape them.
+	config := *c
+	config.FormatValue = func(v int64) string { return escapeForDot(c.FormatValue(v)) }
+	builder := &builder{w, a, &config}
 
 	// Begin constructing DOT by adding a title and legend.
 	builder.start()
